@@ -19,7 +19,29 @@ def run_property(prop, root='/repo', tier='quick', replay_key=None, seed=0):
     from . import rx
     rx.RECORD = tier == 'thorough'
     del rx.REGISTRY[:]
-    REGISTRY[prop](ctx, rep)
+    # every rule runs on its own: one that cannot recognise its anchors (AnalysisError) does not keep the others from reporting
+    _guard_rules(rep)
+    try:
+        REGISTRY[prop](ctx, rep)
+    except AnalysisError as e:
+        rep.analysis_errors.append(str(e))
+    except Exception:
+        if not rep.analysis_errors:
+            raise
+        rep.analysis_errors.append('a later rule failed on the missing result of the rule above: %s'
+                                   % traceback.format_exc().strip().splitlines()[-1])
+    finally:
+        _unguard_rules()
+    if rep.analysis_errors:
+        # what the working rules found is reported; the run as a whole is analysis-broken unless they found a violation
+        status = None
+        try:
+            status = rep.finish(replay_key)
+        except AnalysisError as e:
+            rep.analysis_errors.append(str(e))
+        for msg in rep.analysis_errors:
+            print('ANALYSIS-ERROR property=%s %s' % (prop, msg))
+        return 1 if status == 1 else 2
     if tier == 'thorough' and replay_key is None:
         rx.RECORD = False
         if ctx._grammars is not None:
@@ -44,6 +66,47 @@ def run_property(prop, root='/repo', tier='quick', replay_key=None, seed=0):
                  summary.get('must_stay_silent', 0),
                  (', not applicable: %d' % len(summary['not_applicable'])) if summary.get('not_applicable') else ''))
     return rep.finish(replay_key)
+
+
+_GUARDED = []
+
+
+def _guard_rules(rep):
+    """Wrap every rule function (module-level callables of parsolint.rules.* taking ctx, rep) so that an AnalysisError
+    raised inside one is recorded and the remaining rules of the property still run."""
+    import functools
+    import importlib
+    import inspect
+    import pkgutil
+    from . import rules as _rules
+    for info in pkgutil.iter_modules(_rules.__path__):
+        mod = importlib.import_module('%s.%s' % (_rules.__name__, info.name))
+        for name, fn in list(vars(mod).items()):
+            if not inspect.isfunction(fn) or fn.__module__ != mod.__name__ or name.startswith('_'):
+                continue
+            params = list(inspect.signature(fn).parameters)
+            if params[:2] != ['ctx', 'rep']:
+                continue
+
+            def make(fn):
+                @functools.wraps(fn)
+                def guarded(ctx, rep_, *a, **kw):
+                    try:
+                        return fn(ctx, rep_, *a, **kw)
+                    except AnalysisError as e:
+                        if rep_ is not rep:
+                            raise                   # a scratch report inside another rule: the caller decides
+                        rep_.analysis_errors.append(str(e))
+                        return None
+                return guarded
+            _GUARDED.append((mod, name, fn))
+            setattr(mod, name, make(fn))
+
+
+def _unguard_rules():
+    while _GUARDED:
+        mod, name, fn = _GUARDED.pop()
+        setattr(mod, name, fn)
 
 
 def main(argv=None):
